@@ -35,6 +35,11 @@ def cases(tier, seed):
             for reason in (0, 1, 2, 3, 4, 5, 6, 255):
                 yield {'kind': 'abort', 'who': who, 'when': when, 'reason': reason, 'bound': 0}
             yield {'kind': 'abort', 'who': who, 'when': when, 'reason': 2, 'bound': bound}
+    for reason in (0, 1, 2, 5, 6, 255):
+        yield {'kind': 'abort', 'who': 'acceptor', 'when': 'on-request', 'reason': reason, 'bound': 0}
+    yield {'kind': 'abort', 'who': 'acceptor', 'when': 'on-request', 'reason': 5, 'bound': bound}
+    for exit_ in ('normal', 'error'):
+        yield {'kind': 'all-contexts-refused', 'exit': exit_, 'bound': bound}
     for who in ('requestor', 'acceptor'):
         for when in ('before', 'between'):
             yield {'kind': 'release', 'who': who, 'when': when, 'bound': bound}
@@ -58,6 +63,9 @@ def make_scenario(case, obs):
             def on_association_request(self, asce, assoc_rq):
                 if kind == 'reject':
                     raise exceptions.AssociationRejectedError(*case['triple'])
+                if kind == 'abort' and case['when'] == 'on-request':
+                    asce.abort(case['reason'])
+                    raise exceptions.AssociationAbortedError(2, case['reason'])
 
             def on_receive_echo(self, context):
                 svc_calls.append('echo')
@@ -80,7 +88,7 @@ def make_scenario(case, obs):
             except exceptions.NetDICOMError as exc:
                 results['srv_seen'] = (type(exc).__name__, getattr(exc, 'source', None), getattr(exc, 'reason_diag', None))
                 raise
-        probe_scp.sop_classes = [VERIF]
+        probe_scp.sop_classes = [VERIF] if kind != 'all-contexts-refused' else ['1.2.840.10008.5.1.4.1.2.1.1']
 
         class EarlySrvAE(SrvAE):
             pass
@@ -106,8 +114,8 @@ def make_scenario(case, obs):
             try:
                 with cae.request_association(remote) as asce:
                     results['established'] = True
-                    echo = asce.get_scu(VERIF)
                     when = case.get('when')
+                    echo = asce.get_scu(VERIF) if kind != 'all-contexts-refused' else None
                     if kind == 'abort' and case['who'] == 'requestor':
                         if when == 'before':
                             asce.abort(case['reason'])
@@ -121,6 +129,12 @@ def make_scenario(case, obs):
                         # during: the server's probe service is now waiting inside receive(); abort under its feet
                         asce.abort(case['reason'])
                         results['client'] = 'aborted-locally'
+                        return
+                    if kind == 'all-contexts-refused':
+                        results['accepted'] = sorted(asce.accepted_contexts)
+                        if case['exit'] == 'error':
+                            asce.get_scu(VERIF)       # raises ClassNotSupportedError: leaves the block through an error
+                        results['client'] = 'leaving-normally'
                         return
                     if kind == 'exception-exit':
                         if when == 'between':
@@ -151,6 +165,9 @@ def make_scenario(case, obs):
                 results['rejected'] = (exc.result, exc.source, exc.diagnostic)
             except UserError:
                 results['reraised'] = 'UserError'
+            except exceptions.AssociationAbortedError as exc:
+                results['client_exit'] = type(exc).__name__
+                results['abort_fields'] = (exc.source, exc.reason_diag)
             except exceptions.NetDICOMError as exc:
                 results['client_exit'] = type(exc).__name__
             finally:
@@ -220,7 +237,16 @@ def judge(case, out):
             viol.append((sig + ':wire', 'A-ABORT PDUs sent by the %s: %r, expected one with (source %d, reason %d) (%s)' % (who, ab, src, reason, where)))
         seen = r.get('srv_seen') if who == 'requestor' else r.get('client')
         exp = ('AssociationAbortedError', src, reason)
-        if who == 'requestor' and case['when'] == 'before':
+        if who == 'acceptor' and case['when'] == 'on-request':
+            if r.get('client_exit') != 'AssociationAbortedError' and r.get('client') is None:
+                viol.append((sig + ':not-surfaced', 'the requestor did not see the abort sent in reply to its request (%s)' % where))
+            seen = r.get('abort_fields')
+            if seen is not None and seen != (src, reason):
+                viol.append((sig + ':error-fields', 'the requestor saw abort %r, the acceptor sent (%d, %d) (%s)' % (seen, src, reason, where)))
+            elif seen is None:
+                viol.append((sig + ':not-surfaced', 'no AssociationAbortedError with fields reached the requestor (%s)' % where))
+            seen = exp
+        elif who == 'requestor' and case['when'] == 'before':
             pass    # the server has not entered any service yet: nothing to observe beyond the wire
         elif who == 'requestor' and case['when'] == 'between' and seen is None:
             viol.append((sig + ':not-surfaced', 'the acceptor side never saw the abort (%s)' % where))
@@ -245,6 +271,13 @@ def judge(case, out):
         else:
             if r.get('client') != ('AssociationReleasedError', None, None):
                 viol.append((sig + ':error-type', 'the requestor saw %r, expected AssociationReleasedError (%s)' % (r.get('client'), where)))
+    elif kind == 'all-contexts-refused':
+        if r.get('accepted') != []:
+            viol.append((sig + ':setup', 'expected an association without any accepted context, got %r (%s)' % (r.get('accepted'), where)))
+        if case['exit'] == 'normal' and (names_c.count('A-RELEASE-RQ') != 1 or 'A-ABORT' in names_c):
+            viol.append((sig + ':normal-exit', 'leaving normally an association whose contexts were all refused put %r on the wire (expected one A-RELEASE-RQ) (%s)' % (names_c, where)))
+        if case['exit'] == 'error' and (names_c.count('A-ABORT') != 1 or 'A-RELEASE-RQ' in names_c):
+            viol.append((sig + ':error-exit', 'leaving through an error an association whose contexts were all refused put %r on the wire (expected one A-ABORT) (%s)' % (names_c, where)))
     elif kind == 'exception-exit':
         ab = [x for x in w['c'] if x[0] == 'A-ABORT']
         if len(ab) != 1 or ab[0][1] != 0 or 'A-RELEASE-RQ' in names_c:
